@@ -96,6 +96,16 @@ add("C03", "model_checking",
     "universe's). Rules only active before 2015 are not exercised.",
     "bounded exhaustive enumeration of (first row, row) pairs per rule against the scalar rule as reference", "2/C03")
 
+add("C01", "model_checking",
+    "Differential exploration, real vs. real: every library household and multi-household combination (up to 6 rows) is simulated in ALL row "
+    "permutations at several change dates (thorough: every change date >= 2015) with all nodes of the default-target graph requested; "
+    "single-attribute deviations of every household are simulated in all rotations so that every row comes first once; six index labellings "
+    "in two row orders. Results keyed by p_id must agree (ints/bools/dates/dtypes exactly, floats to 4 ulp), id columns must induce the "
+    "same partition, and there must be one output row per input row in input order.",
+    "Populations are the library households and their k=1 deviations; float sums over >= 3 group members may re-associate (4 ulp). "
+    "All-order exploration of the grouping functions themselves on all structures is in C12.",
+    "exhaustive enumeration of row permutations / index labellings of bounded populations with a differential oracle", "2/C01")
+
 NOT_APPLICABLE = []
 
 
